@@ -35,6 +35,17 @@ caught by a neighbouring property's check, e.g. a scope leak seeded under C04 by
 oracle changes named in the last column, after which the property's own check catches them and the unchanged
 tree stays quiet.  The third round, which asked for variety beyond caches, was the hardest (15 of 28 missed); for the fourth round (40 changes) the descriptions were read first and about a dozen gaps were closed before running them, 6 were still missed; the fifth round (40 changes, agents asked for the hardest-to-notice change incl. non-JSON Python types and hangs) was treated the same way, 8 were still missed; the sixth round (40 changes, agents given the list of everything already seeded for their property and asked for what is left: untouched keywords, drafts and branches, two cooperating edits, boundaries, ordering assumptions) was run without reading the descriptions first: 13 were missed, one of them because of a slip in the harness itself (C19-9) and one as a harness error (C07-10); the seventh round (40 changes; agents asked for sites no earlier change touches, maintainer-style edits such as backports of later upstream features, effects visible only in secondary observables, and histories) was the most productive: 26 were missed at first.  One of its changes (a oneOf message naming only two of three matching subschemas) was dropped again: the listed properties say nothing about the wording of messages, so it breaks none of them.  The eighth round (40 changes) asked for the blind spots of a randomised tester -- size thresholds, rare coincidences between independently drawn parts, object identity and aliasing, state left behind by a call that died half-way; this time the agents' summaries were read first and the generators widened (sizes beyond 32, aliased parts, keyword-like names, deep recursion ...) before the run: of the 40, 12 were caught by what existed before the round, the others needed the additions named in the last column, one (C07-13) is not caught and one (C11-11) only in mirror image by C02.  The ninth round (40 changes) asked for triggers of a kind no earlier change had used (negative halves, single drafts' own keywords, two features combined, Python-level behaviour of the API objects, boundary values); 24 were caught as things stood (a handful thanks to additions made from the agents' summaries before the run), 10 needed the additions named in the last column, 5 are seen only by a neighbouring property's check and one (C18-15, a thread race of a few bytecodes) by none.
 
+A complete re-run of every registered check against all 307 changes at the end (`seeded/RESULTS.md`, built by
+`tools/seeded_results.py` from the run logs) showed that detection of six earlier changes had been LOST through later
+generator work: C05-9 and C10-4 (the new large / extreme probes had taken places in the fixed probe budget and
+displaced the small probes that exposed them -- they now come on top of the budget), C10-10 (placing foreign
+keywords next to their partner keyword left too few random placements -- one-keyword subschemas at verdict-only
+positions were added to the schema grammar), C18-5 (every validator but the first had been given a subclassed
+checker for C18-8 -- the checker style is now drawn per case), C18-9 (a property added for C18-11 happened to match
+the variants' pattern `^v` -- renamed) and C20-6 (caught only by C19 -- C20's CLI families now contain a local
+reference below a root id).  All six are caught again; the remaining MISSED rows of that file are exactly the
+changes marked below as seen only by a neighbouring check or by none.
+
 | change | files | what it does (first sentence of the author's description) | outcome |
 |---|---|---|---|
 """ % (len(names), len(names) - len([n for n in names if n in notes]), len([n for n in names if n in notes])) + "\n".join(rows) + "\n"
